@@ -158,6 +158,17 @@ def run_shard(args):
                 test()
             if hasattr(mod, "extra_engines"):
                 mod.extra_engines(tier, col, s)
+            elif tier == "thorough" and not hasattr(mod, "machine") and shard < 4:
+                # secondary engine: coverage-guided fuzzing with the Hypothesis strategy as structured decoder
+                from . import fuzz
+                res = fuzz.campaign(prop, getattr(mod, "FUZZ_RUNS", 3000), s)
+                col.extra["atheris_available"] += int(res["available"])
+                col.extra["atheris_execs"] += res["execs"]
+                col.extra["atheris_distinct_nontrivial"] += res["nontrivial"]
+                if res["failing_case"]:
+                    case, findings = res["failing_case"]
+                    col.note(case, findings, {"nontrivial": True})
+                    raise Failure("atheris: " + findings[0]["msg"])
         except Failure:
             pass
         except AssertionError:
